@@ -259,31 +259,43 @@ def report_dict(rep):
 
 
 def observe(ix):
-    """Observations through the public API (the abstract state a user sees)."""
+    """Observations through the public API (the abstract state a user sees).  A failing
+    enumeration is itself an observation: obs['err'] names the piece and the exception."""
     t = ix.t
-    obs = {}
-    with warnings.catch_warnings():
-        warnings.simplefilter("ignore")
-        pages = []
-        for node, lru in t.pages_iter():
-            pages.append((lru, bool(node.is_crawled())))
-        obs["pages"] = pages
-        obs["npages"] = t.count_pages()
-        obs["ncrawled"] = t.count_crawled_pages()
-        obs["nlinks"] = t.count_links()
-        obs["we"] = [(lru, node.webentity()) for node, lru in t.webentity_prefix_iter()]
-        outs, ins = [], []
-        for lru, _ in pages:
-            for s, tg, w in t.get_page_links(lru, include_inbound=False, include_internal=True,
-                                             include_outbound=True):
-                outs.append((s, tg, w))
-            for s, tg, w in t.get_page_links(lru, include_inbound=True, include_internal=False,
-                                             include_outbound=False):
-                ins.append((s, tg, w))
-        obs["outs"] = outs
-        obs["ins"] = ins
-        obs["lenT"] = len(t.lru_trie_storage)
-        obs["lenL"] = len(t.links_store_storage)
+    obs = {"pages": [], "npages": 0, "ncrawled": 0, "nlinks": 0, "we": [], "outs": [], "ins": [],
+           "lenT": 0, "lenL": 0}
+    piece = "pages"
+    try:
+        with warnings.catch_warnings():
+            warnings.simplefilter("ignore")
+            pages = []
+            for node, lru in t.pages_iter():
+                pages.append((lru, bool(node.is_crawled())))
+            obs["pages"] = pages
+            piece = "counts"
+            obs["npages"] = t.count_pages()
+            obs["ncrawled"] = t.count_crawled_pages()
+            obs["nlinks"] = t.count_links()
+            piece = "we"
+            obs["we"] = [(lru, node.webentity()) for node, lru in t.webentity_prefix_iter()]
+            piece = "links"
+            outs, ins = [], []
+            for lru, _ in pages:
+                for s, tg, w in t.get_page_links(lru, include_inbound=False, include_internal=True,
+                                                 include_outbound=True):
+                    outs.append((s, tg, w))
+                for s, tg, w in t.get_page_links(lru, include_inbound=True, include_internal=False,
+                                                 include_outbound=False):
+                    ins.append((s, tg, w))
+            obs["outs"] = outs
+            obs["ins"] = ins
+            piece = "len"
+            obs["lenT"] = len(t.lru_trie_storage)
+            obs["lenL"] = len(t.links_store_storage)
+    except MachineryError:
+        raise
+    except Exception as e:
+        obs["err"] = "%s:%s" % (piece, exc_name(e))
     return obs
 
 
